@@ -59,6 +59,10 @@ def op_term(o):
         return "OAuto %d %s %s" % (o["g"], "(Some %d%%nat)" % o["target"] if o.get("reuse") else "None", coq_bool(bool(o.get("slow"))))
     if o["k"] == "local":
         return "OLocal"
+    if o["k"] == "retry":
+        return "ORetry %d %s" % (o.get("g", 0), coq_bool(bool(o.get("slow"))))
+    if o["k"] == "retire":
+        return "ORetire %d" % o["target"]
     if o["k"] == "p2":
         return "OPhase2 %d %s %s" % (o["target"], coq_bool(o["commit"]), coq_bool(o["stranger"]))
     return "ONop"
@@ -69,18 +73,19 @@ def out_term(op, r):
         return "OSkipped"
     if op["k"] == "p2":
         return "OP2 %s" % coq_bool(bool(r.get("good")))
-    return "OOk" if r["class"] == "ok" else "OErr"
+    return "OOk" if r["class"] == "ok" else ("OErrBad" if r.get("bad") else "OErr")
 
 
 def case_term(res):
     sc = res["scenario"]
     det = tuple(int(x) for x in sc["version"].split(".")[:3]) >= (8, 0, 29)
-    return ("{| c_detach := %s; c_xids := %s; c_bids := %s; c_refuse := %s; c_faults := %s;\n   c_prog := %s;\n"
+    return ("{| c_detach := %s; c_xids := %s; c_bids := %s; c_refuse := %s; c_faults := %s; c_fbad := %s;\n   c_prog := %s;\n"
             "   c_jour := %s;\n   c_out := %s |}") % (
         coq_bool(det), coq_list([coq_hex(h) for h in sc["xids_hex"]]),
         coq_list(["%d" % u64(b) for b in sc["branches"] or []]),
         coq_list([coq_bool(m != 0) for m in sc["refuse"] or []]),
         coq_list(["(%s, %d%%nat)" % (CMD[f["kind"]], f["nth"]) for f in sc["faults"] or []]),
+        coq_list(["(%s, %d%%nat)" % (CMD[f["kind"]], f["nth"]) for f in sc["faults"] or [] if f.get("err") == "badconn"]),
         coq_list([op_term(o) for o in sc["ops"]]),
         coq_list([ev_term(e) for e in res["events"] or []]),
         coq_list([out_term(o, r) for o, r in zip(sc["ops"], res["ops"])]))
